@@ -11,11 +11,13 @@ CHECKS = {
             "FanIR.tla defines what a derivation is (Valid: every inner node's children are matched by its rule - alternatives, "
             "concatenations, bounded/open/computed repetitions, literals, class regexes); real runs of plain grammar fuzzing and "
             "of the evolutionary search over a seeded family of specs rendered from grammar IR are recorded (every operator "
-            "result, population member, emitted solution) and every recorded tree is judged by TLC (Trace_Tree.tla)",
+            "result, population member, emitted solution) and every recorded tree is judged by TLC (Trace_Tree.tla); Search.tla "
+            "models the operators (crossover, mutation, repair of computed counts) as edits on trees with origin tags, TLC checks "
+            "that emitted trees are derivations and its operator histories are replayed through the real operators",
             "bounded: 60 (quick) / 1200 (thorough) generated specs x settings; computed repetition counts are demanded of "
             "emitted solutions only (intermediate trees are judged against the grammar as the reader declares it, {1,}); "
             "trusted: TLC, the IR renderer",
-            "TLA+ definition of derivations evaluated by TLC on trees recorded from real fuzzing/search runs (trace validation)"),
+            "TLA+ operator model (TLC exhaustive, histories replayed into the real operators) + TLA+ definition of derivations evaluated by TLC on trees recorded from real runs (trace validation)"),
     "C02": ("model_checking",
             "Evaluator.tla (invariant EmittedSat) model-checked by TLC; real searches in production mode on specs whose where / "
             "extra constraints come from the constraint IR generator (incl. atoms that raise) and on specs with computed "
@@ -59,19 +61,25 @@ CHECKS = {
     "C05": ("model_checking",
             "(ii) every word of the TLC-enumerated language (Lang.tla) that is in the stated class (one derivation, regex leaves "
             "maximal munch) must be accepted by the real parser; (i) every tree emitted by real search runs is serialised, parsed "
-            "back through Fandango.parse, checked with cli.utils.validate and the re-parsed trees are judged by TLC (Trace_Tree)",
+            "back through Fandango.parse, checked with cli.utils.validate and the re-parsed trees are judged by TLC (Trace_Tree); "
+            "the corpus includes grammars in which a named empty-deriving symbol is expected at several places of one input "
+            "position (Earley.tla: AcceptsAtEnd fails without the catch-up of predict, holds with the guarded one)",
             "bounded: 40 / 500 grammars, words <= 5 / 6 units, 40 / 600 search runs; the class is computed per word from the "
             "enumeration (narrower than the property's, never wider); CPython re trusted for maximal munch",
             "TLC-enumerated languages replayed into the real parser + round trip of generated trees judged by TLC"),
     "C06": ("model_checking",
-            "Earley.tla models the chart parser with two admission rules; TLC checks <>[]Quiescent under weak fairness for the "
-            "specification's rule and shows unbounded growth for the implementation's rule exactly on the cyclic-empty-derivation "
-            "configurations; every word and near-miss of the Lang.tla-enumerated corpus plus hand-written nullable/recursive "
-            "templates is parsed by the real parser (first tree, forest, prefix mode) with admissions counted at Column.add "
+            "Earley.tla models the chart parser with two admission rules and three treatments of an empty-deriving symbol predicted "
+            "after its completion, in every processing order; TLC checks <>[]Quiescent under weak fairness and acceptance at "
+            "quiescence, and shows unbounded growth for the implementation's admission rule exactly on the cyclic-empty-derivation "
+            "configurations (and for an unguarded catch-up on a left recursion followed by a nullable symbol); every word and "
+            "near-miss of the Lang.tla-enumerated corpus, hand-written templates and the family recursion (left / right / nested) x "
+            "tail (operator / nullable symbol / both) x shape of the nullable symbol x operand (literal / nullable prefix / "
+            "length-prefixed field) is parsed by the real parser (first tree, forest, prefix mode) with admissions counted at Column.add "
             "against a budget 1000x above the item bound of a terminating chart parser; recorded non-terminating classes are "
             "replayed as pinned witnesses",
-            "bounded: 30 / 400 grammars + 9 templates, inputs <= 5 / 6 units; non-termination = budget overrun (>= 200000 "
-            "admissions or 20 s CPU; terminating runs stay below 2500 admissions) or an endless forest; F16/F17/F29 known",
+            "bounded: 30 / 400 grammars + 9 templates + 48 / 720 family members, inputs <= 5 / 6 units (family: generated members "
+            "<= 9 characters + random strings); non-termination = budget overrun (>= 200000 admissions or 20-30 s CPU, enforced by a "
+            "CPU-time signal so that loops which admit nothing are caught too; terminating runs stay below 2500 admissions) or an endless forest; F16/F17/F29 known",
             "TLA+ liveness model (TLC, fairness) + budgeted real parses over TLC-enumerated inputs"),
     "C07": ("model_checking",
             "Constraint.tla states the meaning of selectors (. .. [i] [i:j]), atoms that may raise, counts, groups, formula-level "
@@ -83,8 +91,9 @@ CHECKS = {
             "TLA+ semantics evaluated by TLC on verdicts recorded from the real constraint objects over TLC-enumerated trees"),
     "C08": ("translation_validation",
             "PyAst.tla defines the program space; TLC enumerates every constructor in every operator / field-presence variant with "
-            "atomic children (D1) and every expression slot of every constructor filled with every D1 expression (D2) - 8869 "
-            "expressions, 820 statements; each is canonicalised by CPython's ast.unparse, embedded as helper code and inside a "
+            "atomic children (D1), every expression slot of every constructor filled with every D1 expression (D2), every legal "
+            "parameter list composed from its parts (positional-only / ordinary / star / keyword-only / **) and every display / "
+            "argument list of <= 3 entries composed entry by entry - 9429 expressions, 1240 statements; each is canonicalised by CPython's ast.unparse, embedded as helper code and inside a "
             "`where (...)` clause, pushed through Fandango's front end (C++ reader; the Python reader on a sample) and compared "
             "with CPython's reading by ast.dump; outcome must be identical or rejected; harvested stdlib statements go the same way",
             "bounded: all D1, 22% (quick) / all (thorough) D2, 150 / 3000 harvested statements; constructs recorded as findings "
@@ -132,7 +141,8 @@ CHECKS = {
             "open); printed constraints are re-read and their verdicts judged against Constraint.Sat of the original on "
             "TLC-enumerated trees",
             "bounded: depth-2 bodies (all repetition-rooted + 35% of the rest quick; all thorough), 150 / 3000 deeper bodies, 28 nasty "
-            "literals; constraints limited to atoms and counts (quantifier and and/or printing are findings F33/F34)",
+            "literals + 160 / 4000 generated specs with one- and two-character literals over 19 code-point classes (quotes, backslash, "
+            "controls, non-ASCII inside and outside the basic plane, spec syntax) as text / bytes / regex, the same text in two kinds; constraints limited to atoms and counts (quantifier and and/or printing are findings F33/F34)",
             "TLC-enumerated program space + print/re-read translation validation judged by TLC"),
     "C16": ("model_checking",
             "Generators.tla (argument replacement re-generates the field, generated text is never edited; the 'only the last "
@@ -154,17 +164,20 @@ CHECKS = {
             "Globals.tla makes the process-wide state explicit (repetition cap, IO environment key); TLC shows NonInterference for "
             "a run-scoped cap and its violation for the leaking cap; every TLC-enumerated history of operations on A and B is "
             "replayed in a fresh process and B's event stream is compared in lock-step (Trace_Lockstep.tla) with B running alone",
-            "bounded: histories <= 5 operations (20 sampled quick, all 500+ thorough) x 4 / 14 spec pairs; protocol-mode "
-            "isolation only as a pinned witness (F11)",
+            "bounded: histories <= 5 operations (20 sampled quick, all 500+ thorough) x 6 / 16 spec pairs (incl. a pair whose A "
+            "mutates large individuals while B needs many generations, and a pair of spec files that include different files under "
+            "one relative name); Globals.tla also carries the shared operator object's state and the include binding (sanity "
+            "configurations opleak / incleak violate NonInterference); protocol-mode isolation only as a pinned witness (F11)",
             "TLA+ model (TLC exhaustive) + TLC-enumerated histories replayed in fresh processes, differential lock-step comparison"),
     "C19": ("model_checking",
             "Protocol.tla (derivation machine over the message alphabet) explored by TLC gives every viable message history with "
             "its completeness for each generated protocol grammar; NextMsgs/Complete are read off the state graph and the real "
             "PacketForecaster is walked in lock-step (history trees built by mounting real messages at the forecast path): the "
             "offered (sender, recipient, type) set and the completeness flag must coincide at every history",
-            "bounded: 26 (quick) / 404 (thorough) protocols (alternatives with shared prefixes, options, bounded/open repetitions "
-            "of sequences with cap 3, sessions, 2-3 parties), histories up to depth 5 / 6; every message involves the "
-            "fuzzer-side party; slicing to party subsets is not covered",
+            "bounded: 64 (quick) / 604 (thorough) protocols (alternatives with shared prefixes, options, bounded/open repetitions "
+            "of sequences, sessions, 2-3 parties, message types re-used with other parties) plus their slices to party A and to "
+            "party B (Protocol.tla SlicedRules), histories up to depth 5 / 6; open repetitions are unrolled further than any "
+            "explored history, so the process-wide generation cap never binds; every message involves the fuzzer-side party",
             "TLC state graph of the message-level language walked in lock-step through the real forecaster"),
     "C20": ("model_checking",
             "ProtocolRun.tla models the run loop with its environment (per-connection FIFO channels, arbitrary arrival interleaving, "
